@@ -377,8 +377,13 @@ impl Decoder for CountDec {
 }
 
 fn pn_glue<const N: usize>() {
+    pn_glue_v::<N, 7>()
+}
+
+// V bits: 1 = symbolic poll_frame script, 2 = symbolic start state, 4 = symbolic direction and limit
+fn pn_glue_v<const N: usize, const V: u32>() {
     let bytes: [u8; N] = kani::any();
-    let script: [u8; 2] = kani::any();
+    let script: [u8; 2] = if V & 1 != 0 { kani::any() } else { [3, 0] };
     unsafe {
         PF_SCRIPT = script;
         PF_POS = 0;
@@ -386,10 +391,10 @@ fn pn_glue<const N: usize>() {
     }
     let mut s = Streaming::<usize> {
         decoder: Box::new(CountDec),
-        inner: mk_inner(Body::empty(), any_direction(), kani::any()),
+        inner: if V & 4 != 0 { mk_inner(Body::empty(), any_direction(), kani::any()) } else { mk_inner(Body::empty(), Direction::Request, None) },
     };
     s.inner.buf.put_slice(&bytes);
-    let start_terminal: bool = kani::any();
+    let start_terminal: bool = if V & 2 != 0 { kani::any() } else { false };
     if start_terminal {
         s.inner.state = State::Error(None);
     }
@@ -462,3 +467,4 @@ fn twin_dec_hdr_false() {
     core::mem::forget(inner);
     assert!(false, "false twin: this assertion must be reported as violated");
 }
+
